@@ -286,9 +286,14 @@ def run(ctx):
             cells = {}
             wbcells = {}
             for i, v in enumerate(asg):
-                if v is not None:
+                if isinstance(v, str) and v.startswith('#'):
+                    cells[f'A{i + 1}'] = '=' + v
+                    wbcells[(S, 1, i + 1)] = ref.Err(v)
+                elif v is not None:
                     cells[f'A{i + 1}'] = v
                     wbcells[(S, 1, i + 1)] = v
+            # Y1 fails when evaluated (unknown function)
+            cells['Y1'] = '=NOSUCHFUNCTION(1)'
             # Z1 refers to itself through each probe: give each probe its own
             # self reference by pointing Z1 at nothing evaluable: Z1 = Z1
             cells['Z1'] = '=Z1'
@@ -305,6 +310,8 @@ def run(ctx):
             ev = Evaluator(model)
             wb = ref.Workbook(wbcells)
             wb.cells[(S, 26, 1)] = ('f', ('ref', None, 26, 1, False, False))
+            wb.cells[(S, 25, 1)] = ('f', ('call', 'NOSUCHFUNCTION',
+                                          [('lit', 1, '1')]))
             lr = LazyRef(wb)
             for j, it in enumerate(items):
                 a = f'{S}!P{j + 1}'
@@ -397,6 +404,16 @@ def run(ctx):
                 c = g.spy(cell(0))
                 good = g.spy(L(7))
                 bad = g.spy(p)
+                if pname == 'self-reference' and omitted is False and \
+                        cv in (True, False, 0, 3):
+                    # unwrapped: the branch IS the failing reference
+                    for bare in (p, ('ref', None, 25, 1, False, False)):
+                        ast2 = ('call', 'IF', [c, good, bare] if truthy
+                                else [c, bare, good])
+                        batch.append({'ast': ast2, 'asg': (cv, 1, 0, None),
+                                      'kind': 'if', 'poisoned': True,
+                                      'poison': 'bare-reference',
+                                      'shape': ('if-bare', repr(bare))})
                 if omitted:
                     if not truthy:
                         ast = ('call', 'IF', [c, bad])
@@ -425,13 +442,23 @@ def run(ctx):
             p, pname = g.poison()
             args = list(ast[2])
             pos = rng.choice([1, 2]) if len(args) == 3 else 1
-            args[pos] = g.spy(p)
+            if pname == 'self-reference' and rng.random() < 0.7:
+                # a BARE reference to a cell that cannot be evaluated
+                args[pos] = rng.choice([p, ('ref', None, 25, 1, False,
+                                            False)])
+            else:
+                args[pos] = g.spy(p)
             item['ast'] = ('call', 'IF', args)
             item['poison'] = pname
             item['poisoned'] = True
         if kind == 'if' and len(item['ast'][2]) == 2:
             item['omitted_else'] = True
         asg = tuple(rng.choice(truth_values + [2.5]) for _ in range(4))
+        if rng.random() < 0.25:
+            # an error value in one of the cells (also reached through ranges)
+            lst = list(asg)
+            lst[rng.randrange(4)] = rng.choice(['#DIV/0!', '#N/A', '#VALUE!'])
+            asg = tuple(lst)
         if all(v is None for v in asg):
             asg = (True,) + asg[1:]
         item['asg'] = asg
